@@ -176,7 +176,13 @@ CHILD = {
     "pi": '<?proc data="1"?>',
     "nested": '<group><item a="1">inner</item><!-- c --></group>',
     "mixed": 'pre<item a="1">mid</item>post',
+    # a start tag directly followed by a CDATA section / comment / PI / its own end tag (no character data in between)
+    "wrap-cdata": "<banner><![CDATA[x < y]]></banner>",
+    "wrap-comment": "<motd><!-- note --></motd>",
+    "wrap-pi": '<hook><?proc data="2"?></hook>',
+    "empty-pair": '<gap b="1"></gap>',
 }
+COMPACT = "@compact"  # first element of a child sequence: the document is written without any whitespace between nodes
 PROLOG = {
     "none": "",
     "decl": '<?xml version="1.0" encoding="utf-8"?>\n',
@@ -190,6 +196,8 @@ TRANSFORMS = ["attr-present", "attr-absent", "new-under-root", "new-under-group"
 
 
 def xml_doc(prolog, children):
+    if children and children[0] == COMPACT:
+        return PROLOG[prolog] + "<cfg>" + "".join(CHILD[c] for c in children[1:]) + "</cfg>"
     return PROLOG[prolog] + "<cfg>\n" + "".join(CHILD[c] + "\n" for c in children) + "</cfg>\n"
 
 
@@ -208,6 +216,7 @@ def xml_cases(tier):
     seqs = [()] + [(k,) for k in kinds] + [p for p in itertools.product(kinds, repeat=2)]
     if tier == "thorough":
         seqs += [p for p in itertools.product(kinds[:6] + ["nested", "mixed"], repeat=3)]
+    seqs += [(COMPACT,) + q for q in seqs if 1 <= len(q) <= (1 if tier == "quick" else 2)]
     for seq in seqs:
         for prolog in PROLOG if len(seq) <= 1 else ["none", "decl"]:
             for tr in TRANSFORMS:
